@@ -1526,12 +1526,12 @@ class _Engine:
     def plan(prop, tier):
         quick = tier == "quick"
         runs = {
-            "C04": (3000, 80000),
-            "C05": (4000, 110000),
-            "C06": (4000, 110000),
-            "C07": (2500, 60000),
-            "C17": (2500, 70000),
-            "C19": (4800, 120000),
+            "C04": (4800, 80000),
+            "C05": (6000, 110000),
+            "C06": (6000, 110000),
+            "C07": (3600, 60000),
+            "C17": (3600, 70000),
+            "C19": (6336, 120000),
         }[prop]
         rules = {
             "C06": "sessions on a fitted object with restart faults (save, drop, reload through the real loader from a fresh json.loads) at seeded points between transforms on seen/unseen/empty/single-row frames, summaries, manual edits; a never-restarted shadow object receives the same operations and is the oracle; JSON of every generation compared as JSON values. distinct = digest of (world, executed operations, schedule signature); non-trivial = at least one restart of an object that kept at least one feature",
